@@ -1,13 +1,13 @@
 SPECIFICATION Spec
 CONSTANTS
-  Addr <- AddrRestart
-  Gaps <- GapsRestartF
+  Addr <- Addr2
+  Gaps <- GapsJitter2
   T = 10
-  D = 0
+  D = 1
   MaxEvents = 4
   MaxFails = 0
-  Extra = "none"
-  Backoff = FALSE
+  Extra = "start"
+  Backoff = TRUE
   Closed = TRUE
   ObserveCb = FALSE
   TrackQuiet = FALSE
